@@ -390,6 +390,22 @@ protected:
 
 
 
+#if defined FIX8_VERIF
+/*
+ * Verification hook (off unless FIX8_VERIF is defined; without it the preprocessor output is unchanged).
+ * A harness may install a function that is called between the atomic steps of uMPMC_Ptr_Queue::push/pop with the
+ * kind of point and the ticket (slot reservation number) the operation holds: it can record the event and/or park
+ * the calling thread, which lets a scheduler enumerate interleavings of the real code.
+ */
+typedef void (*verif_mpmc_hook_t)(int kind, unsigned long ticket);
+inline verif_mpmc_hook_t& verif_mpmc_hook() { static verif_mpmc_hook_t hook = 0; return hook; }
+enum { VERIF_PUSH_LOOP=0, VERIF_PUSH_RESERVED=1, VERIF_PUSH_STORED=2, VERIF_PUSH_PUBLISHED=3,
+       VERIF_POP_LOOP=4, VERIF_POP_RESERVED=5, VERIF_POP_TAKEN=6, VERIF_POP_PUBLISHED=7 };
+#define FIX8_VERIF_MPMC_POINT(kind, ticket) do { if (verif_mpmc_hook()) verif_mpmc_hook()((kind), (ticket)); } while(0)
+#else
+#define FIX8_VERIF_MPMC_POINT(kind, ticket)
+#endif
+
 /*!
  * \class uMPMC_Ptr_Queue
  *  \ingroup building_blocks
@@ -466,6 +482,7 @@ public:
         unsigned long pw,seq,idx;
         unsigned long bk = BACKOFF_MIN;
         do {
+            FIX8_VERIF_MPMC_POINT(VERIF_PUSH_LOOP, 0);
             pw    = atomic_long_read(&preadP);
             idx   = pw & mask;
             seq   = atomic_long_read(&seqP[idx]);
@@ -479,8 +496,11 @@ public:
                 bk &= BACKOFF_MAX;
             }
         } while(1);
+        FIX8_VERIF_MPMC_POINT(VERIF_PUSH_RESERVED, pw);
         ((uSWSR_Ptr_Buffer*)(buf[idx]))->push(data); // cannot fail
+        FIX8_VERIF_MPMC_POINT(VERIF_PUSH_STORED, pw);
         atomic_long_set(&seqP[idx],(pw+mask+1));
+        FIX8_VERIF_MPMC_POINT(VERIF_PUSH_PUBLISHED, pw);
         return true;
     }
 
@@ -494,6 +514,7 @@ public:
         unsigned long bk = BACKOFF_MIN;
 
         do {
+            FIX8_VERIF_MPMC_POINT(VERIF_POP_LOOP, 0);
             pr     = atomic_long_read(&preadC);
             idx    = pr & mask;
             seq    = atomic_long_read(&seqC[idx]);
@@ -508,8 +529,11 @@ public:
                 bk &= BACKOFF_MAX;
             }
         } while(1);
+        FIX8_VERIF_MPMC_POINT(VERIF_POP_RESERVED, pr);
         ((uSWSR_Ptr_Buffer*)(buf[idx]))->pop(data);
+        FIX8_VERIF_MPMC_POINT(VERIF_POP_TAKEN, pr);
         atomic_long_set(&seqC[idx],(pr+mask+1));
+        FIX8_VERIF_MPMC_POINT(VERIF_POP_PUBLISHED, pr);
         return true;
     }
 
